@@ -13,7 +13,7 @@ def short(s):
     fam = {'localp': 'lp', 'global': 'gl', 'sequence': 'sq', 'fourier': 'fr', 'wavelet': 'wv'}[t[0]]
     n = '%s-%s-d%so%sl%s-%s' % (fam, t[1], t[2], t[3], t[4], t[5])
     if t[0] in ('localp', 'wavelet'): n += '-ord%s' % t[6]
-    if t[7] != '0': n += '-aw'
+    if t[7] != '0': n += '-aw' + (t[7] if t[7] != '1' else '')
     if t[8] != '0': n += '-lim%s' % t[8]
     if t[9] != '0': n += '-tr'
     if len(t) > 10: n += '-a%s' % t[10]
